@@ -34,13 +34,17 @@ func runC05(tb ev.TB, p sim.Prog) ev.Result {
 	sharedSince := map[string]int{} // hash -> op index at which it was first held by >= 2 replicas
 	obs := func(tb ev.TB, w *sim.World, info *sim.OpInfo) {
 		switch info.Op.Kind {
-		case "append", "join", "rebuild", "load":
+		case "append", "join", "rebuild", "load", "loadtail":
 			sim.MustOK(tb, info)
 		}
 		if states == nil {
 			for range w.Reps {
 				states = append(states, &repState{seen: map[string]int{}})
 			}
+		}
+		if info.Partial {
+			// a restart from a length-limited load is a new log instance holding fewer entries
+			states[info.Dst] = &repState{seen: map[string]int{}}
 		}
 		holders := map[string]int{}
 		for ri, r := range w.Reps {
